@@ -345,6 +345,10 @@ def rule_hex(facts, rep):
         return False
 
     slices = hir.visit_with_conds(b["hir"], lambda n: n.get("k") == "index" and hir.is_local(n["e"], hexvar))
+    if not slices:
+        # no slicing of the word at all (the digits are split numerically): nothing for the slice guards to protect — the branch is
+        # decided by value instead, on a vocabulary of hex words around every boundary (whether its arithmetic can overflow is C04's)
+        return _hex_by_value(facts, rep, b)
     rep.check(len(slices) == 3, "hex-guard", b["path"], "three-slices", f"{len(slices)} byte-range slices of the hex word", loc(b))
     for i, (n, frames) in enumerate(slices):
         lens = len_guard_frames(frames)
@@ -407,3 +411,37 @@ def rule_hex(facts, rep):
     ok = flow == [0, 1, 2]
     rep.check(ok, "hex-guard", b["path"], "colour-from-(r,g,b)-in-order",
               f"Color::from((r, g, b)) must take the values parsed from the 1st, 2nd and 3rd third of the word; found slice order {flow}", loc(b))
+
+
+def _hex_by_value(facts, rep, b):
+    import itertools
+
+    def want(word):
+        h = word[1:]
+        n = len(h.encode())
+        if n in (3, 6) and all(c in "0123456789abcdefABCDEF" for c in h):
+            t = n // 3
+            return ("ok", ("rgb",) + tuple(int(h[i * t:(i + 1) * t], 16) for i in range(3)), None, 0)
+        return ("err", "UnknownWord", word)
+    digits = "09aF"
+    classes = {
+        "three-digit-values": ["#" + "".join(p) for p in itertools.product(digits, repeat=3)],
+        "six-digit-values": ["#" + "".join(p) for p in itertools.product(("00", "0f", "A0", "fF"), repeat=3)] + ["#123456", "#abcdef", "#ABCDEF", "#fedcba"],
+        "other-lengths-rejected": ["#", "#1", "#12", "#1234", "#12345", "#1234567", "#12345678", "#" + "f" * 9, "#" + "0" * 12],
+        "non-hex-digit-rejected": ["#" + "".join("g" if i == j else "1" for i in range(n)) for n in (3, 6) for j in range(n)] + ["#xyz", "#12345z", "#_12", "#1.2"],
+        "sign-rejected": ["#+12", "#-12", "#+f+f+f", "#1+2", "#+12345", "#12345+", "#-fffff"],
+        "multi-byte-rejected": ["#\u00e91", "#1\u00e9", "#\u00e9\u00e91", "#\u00e9\u00e9\u00e9", "#12\u20ac", "#\u20ac\u20ac", "#a\u00e9b\u00e9"],
+        "case-insensitive-digits": ["#abc", "#ABC", "#aBc", "#AbCdEf", "#abcDEF"],
+    }
+    rep.ok("hex-guard", b["path"], "hex-branch", "word.strip_prefix('#'), split numerically (no slices)")
+    for key, words in classes.items():
+        bad = []
+        for w in words:
+            try:
+                got = observed(facts, w)
+            except Unrecognised as ex:
+                got = ("not-evaluable", str(ex)[:80])
+            if got != want(w):
+                bad.append(f"parse({w!r}) = {got}, expected {want(w)}")
+        rep.count(len(words))
+        rep.check(not bad, "hex-guard", b["path"], f"by-value:{key}", f"{len(words)} words evaluated {bad[:2]}"[:400], loc(b))
